@@ -15,6 +15,8 @@ pub fn signs(k: usize) -> [i8; 6] {
 
 /// geometry classes named in C01's quantifier
 pub const GEOMETRY_CLASSES: [&str; 9] = ["plain", "b-nonzero", "a2-positive", "a2-negative", "a1-negative", "a1-zero", "offsets-only", "c4-zero", "c1-zero"];
+/// classes used for forward kinematics only (the closed-form inverse presupposes c3 > 0)
+pub const FK_ONLY_CLASSES: [&str; 2] = ["c3-negative", "a2-c3-zero"];
 
 pub fn geometry(class: &str, r: &mut StdRng) -> Parameters {
     let l = |r: &mut StdRng, lo: f64, hi: f64| r.gen_range(lo..hi);
@@ -27,6 +29,8 @@ pub fn geometry(class: &str, r: &mut StdRng) -> Parameters {
         "a1-zero" => { p.a1 = 0.0; p.a2 = l(r, -0.1, 0.1); }
         "c4-zero" => { p.c4 = 0.0; p.a2 = l(r, -0.1, 0.1); if r.gen_bool(0.5) { p.b = l(r, -0.1, 0.1); } }
         "c1-zero" => { p.c1 = 0.0; p.b = l(r, -0.15, 0.15); }
+        "c3-negative" => { p.c3 = -l(r, 0.3, 0.8); p.a2 = l(r, -0.1, 0.1); }
+        "a2-c3-zero" => { p.c3 = 0.0; p.a2 = 0.0; }
         _ => {}
     }
     p
